@@ -345,7 +345,7 @@ func init() {
 		Run:  runC09,
 	})
 	Register(&Scenario{
-		Prop: "C09", Name: "crash-then-gc", Level: "fault_enumeration", Weight: 1,
+		Prop: "C09", Name: "crash-then-gc", Weight: 1,
 		Rule: "the C10 crash enumeration, with the C09 convergence oracle evaluated on every restarted crash image after grace + 2 GC intervals",
 		Real: realStack,
 		Run:  runC10,
